@@ -44,7 +44,7 @@ mod verif_c06 {
         st.inner_chunk = Some(Placed::new(Chunk {
             code: vec![0u8, 0u8],
             lines: vec![1, 1],
-            constant_map: HashMap::with_hasher(random_state_stub()),
+            constant_map: std::collections::HashMap::with_hasher(random_state_stub()),
             constants: Vec::new(),
         }));
         let inner_chunk = st.inner_chunk.as_mut().unwrap().gc();
@@ -62,7 +62,7 @@ mod verif_c06 {
         st.chunk = Some(Placed::new(Chunk {
             lines: vec![0; code.len()],
             code,
-            constant_map: HashMap::with_hasher(random_state_stub()),
+            constant_map: std::collections::HashMap::with_hasher(random_state_stub()),
             constants: vec![Value::ObjFunction(inner_fn)],
         }));
         let chunk = st.chunk.as_mut().unwrap().gc();
